@@ -96,6 +96,11 @@ struct HArray : public HashTable<Key_T, HAItem_T<Key_T, Value_T>> {
     using BaseT::Storage;
 
     void operator+=(HArray &&src) {
+        if (this == &src) {
+            // Merging a table into itself changes nothing (and growing it would release what is being read).
+            return;
+        }
+
         const SizeT  n_size   = (Size() + src.Size());
         HItem       *src_item = src.Storage();
         const HItem *src_end  = (src_item + src.Size());
@@ -127,6 +132,11 @@ struct HArray : public HashTable<Key_T, HAItem_T<Key_T, Value_T>> {
     }
 
     void operator+=(const HArray &src) {
+        if (this == &src) {
+            // Merging a table into itself changes nothing (and growing it would release what is being read).
+            return;
+        }
+
         const SizeT  n_size   = (Size() + src.Size());
         const HItem *src_item = src.First();
         const HItem *src_end  = src_item + src.Size();
